@@ -2,7 +2,9 @@ package main
 
 import (
 	"bytes"
+	"errors"
 	"fmt"
+	"io"
 	"sort"
 	"strings"
 	"sync"
@@ -546,6 +548,9 @@ func runTokenStream(c *ctx) error {
 	c.emit("go.cmd.history 0", "literal.exact", true, "cmd-history")
 	c.emit("go.lit.nodes 0", "literal.exact", true, "literal-nodes")
 	c.emit("go.ctor.wf 0", "literal.exact", true, "ctor-wellformed")
+	// the same two checks again under the round-trip class: "seals but does not unseal" is a C07 matter as well
+	c.emit("go.lit.nodes 1", "token.roundtrip-nodes", true, "literal-nodes")
+	c.emit("go.ctor.wf 1", "token.roundtrip-ctor", true, "ctor-wellformed")
 	// (roundtrip) constructor-built tokens
 	rtAlgs := []string{"ed25519", "secp256k1", "p256", "p384", "p521", "rsa"}
 	masks := 128
@@ -757,6 +762,10 @@ func specialValues(field string) []string {
 	return nil
 }
 
+type brokenReader struct{}
+
+func (brokenReader) Read([]byte) (int, error) { return 0, errors.New("injected read failure") }
+
 // tokRoundTrip builds a token with the constructors (option mask), seals and unseals it with every codec and
 // decoder, and checks that every field survives (times at whole-second resolution).
 func tokRoundTrip(kind, alg, ms string) string {
@@ -920,6 +929,36 @@ func tokRoundTrip(kind, alg, ms string) string {
 			g = dumpAny(tj)
 		}
 		add(check("token.FromDagJson", g, err))
+	}
+	{
+		// the stream decoders agree with the buffered ones, also right after a stream that ended early or failed
+		for round := 0; round < 3; round++ {
+			_, _, _ = token.FromSealedReader(bytes.NewReader(sealed[:len(sealed)/2]))
+			_, _, _ = token.FromSealedReader(io.MultiReader(bytes.NewReader(sealed[:len(sealed)-1]), brokenReader{}))
+			t, _, err := token.FromSealedReader(bytes.NewReader(sealed))
+			g := ""
+			if err == nil {
+				g = dumpAny(t)
+			}
+			add(check("token.FromSealedReader (after a failed read)", g, err))
+			if kind == "dlg" {
+				_, _, _ = delegation.FromSealedReader(bytes.NewReader(sealed[:len(sealed)/3]))
+				td, _, err := delegation.FromSealedReader(bytes.NewReader(sealed))
+				g = ""
+				if err == nil {
+					g = dumpDlg(td)
+				}
+				add(check("delegation.FromSealedReader (after a failed read)", g, err))
+			} else {
+				_, _, _ = invocation.FromSealedReader(bytes.NewReader(sealed[:len(sealed)/3]))
+				ti, _, err := invocation.FromSealedReader(bytes.NewReader(sealed))
+				g = ""
+				if err == nil {
+					g = dumpInv(ti)
+				}
+				add(check("invocation.FromSealedReader (after a failed read)", g, err))
+			}
+		}
 	}
 	if kind == "dlg" {
 		t, _, err := delegation.FromSealed(sealed)
